@@ -1571,6 +1571,67 @@ example : reorderLen (some 2) 3 = 2 := by
   decide
 
 
+/-! ### wave 10: hypothesis `H` of (e), (e') discharged for one-component inputs; its necessity -/
+
+/-- (e) with hypothesis `H` DISCHARGED: every emitted input still in the batch is the one-component input `[k]`
+(perfect source / indistinguishable photons) and the detectors return the state as it is (`c.det = .none`); only the
+backend's law for `k` must have mass 1.  `stoppedOut` is written out. -/
+theorem stopped_loop_single_component_inputs (bk detK : Fock → PM.Dist.D) (k : Fock)
+    (hk : PM.Dist.mass (bk k) = 1) (c : SelCfg) (hc : c.det = .none) (ms K : Nat) (ge : Option String)
+    (G : List Fock → ℚ) (fuel : ℕ) (s : Core) (hf : K - s.shots < fuel) (hb : K - s.shots ≤ s.batch.length)
+    (hin : ∀ inp ∈ s.batch, inp = [k]) :
+    exLoop bk detK c ms (some K) ge fuel s (fun s' => G s'.out) =
+      exN (bk k) (K - s.shots) (fun seen =>
+        G (((seen.filterMap (selOf c)).take (ms - s.out.length)).reverse ++ s.out)) :=
+  (stopped_loop_returns_first_accepted_of_iid_shots bk detK (bk k) hk c ms K ge G fuel s hf hb
+    (fun inp hi g => by rw [hin inp hi, hc]; exact single_component_input_has_the_backend_law bk detK k g)).1
+
+/-- (e') with hypothesis `H` discharged in the same way, and composed with its `SimSpec` clause into ONE equation:
+P(returned = o) = stopW(1 - a, K - shots, ms, |o|) · a^|o| · ∏ᵢ conditioned(oᵢ), `a` = mass retained by strong
+simulation's selection of the backend law of `k`. -/
+theorem returned_samples_law_single_component_inputs (bk detK : Fock → PM.Dist.D) (k : Fock)
+    (hk : PM.Dist.mass (bk k) = 1) (c : SelCfg) (hc : c.det = .none) (ms K : Nat) (ge : Option String)
+    (fuel : ℕ) (s : Core) (hs : s.out = []) (hf : K - s.shots < fuel) (hb : K - s.shots ≤ s.batch.length)
+    (hin : ∀ inp ∈ s.batch, inp = [k]) (o : List Fock) :
+    exLoop bk detK c ms (some K) ge fuel s (fun s' => if s'.out.reverse = o then 1 else 0) =
+      stopW (muNone (bk k) (selOf c)) (K - s.shots) ms o.length * (o.map (muSel (bk k) (selOf c))).prod ∧
+    (∀ ps : PM.SimSpec.PS, c.psf = ps.eval → PM.Dist.mass (PM.SimSpec.retained (condOf c ps) (bk k)) ≠ 0 →
+      exLoop bk detK c ms (some K) ge fuel s (fun s' => if s'.out.reverse = o then 1 else 0) =
+        stopW (1 - PM.Dist.mass (PM.SimSpec.retained (condOf c ps) (bk k))) (K - s.shots) ms o.length *
+          (PM.Dist.mass (PM.SimSpec.retained (condOf c ps) (bk k)) ^ o.length *
+            (o.map (PM.Dist.get (PM.SimSpec.conditioned (condOf c ps) (bk k)))).prod)) := by
+  have h := returned_samples_law_under_the_stopping_rule bk detK (bk k) hk c ms K ge fuel s hs hf hb
+    (fun inp hi g => by rw [hin inp hi, hc]; exact single_component_input_has_the_backend_law bk detK k g) o
+  refine ⟨h.1, fun ps hps ha => ?_⟩
+  obtain ⟨h1, h2⟩ := h.2.2 ps hps ha
+  rw [h.1, h1, h2]
+
+-- non-vacuity: all hypotheses hold on `exCore2` / `exSel` / `exBk`
+example (o : List Fock) :
+    exLoop exBk exDetK exSel 2 (some 2) none 5 exCore2 (fun s' => if s'.out.reverse = o then 1 else 0) =
+      stopW (muNone (exBk [1, 0]) (selOf exSel)) (2 - exCore2.shots) 2 o.length *
+        (o.map (muSel (exBk [1, 0]) (selOf exSel))).prod :=
+  (returned_samples_law_single_component_inputs exBk exDetK [1, 0] (exBk_mass _) exSel rfl 2 2 none 5 exCore2 rfl
+    (by decide) (by decide) (by decide) o).1
+
+/-- the backend that returns its input -/
+def bkId : Fock → PM.Dist.D := fun k => [(k, 1)]
+
+/-- NECESSITY of hypothesis `H` of (e'): on the batch `[|1,0>], [|0,0>]` (filter 1, identity backend) every other
+hypothesis holds and `H` holds for the FIRST input with `d = bkId |1,0>`, yet the closed form gives 1 for
+"`|1,0>, |1,0>` is returned" while the loop's law gives 0 (the second shot is rejected). -/
+theorem closed_form_needs_a_shared_one_shot_law :
+    exLoop bkId exDetK exSel 2 (some 2) none 5 ⟨[], [], 0, 0, 0, [[[1, 0]], [[0, 0]]], [], [], []⟩
+        (fun s' => if s'.out.reverse = [[1, 0], [1, 0]] then 1 else 0) = 0 ∧
+      stopW (muNone (bkId [1, 0]) (selOf exSel)) 2 2 2 *
+        (([[1, 0], [1, 0]] : List Fock).map (muSel (bkId [1, 0]) (selOf exSel))).prod = 1 ∧
+      PM.Dist.mass (bkId [1, 0]) = 1 ∧
+      (∀ g : Option Fock → ℚ, (shotRd exSel.det [[1, 0]]).exR (siteLaw bkId exDetK) g =
+        ex (bkId [1, 0]) (fun t => g (some t))) := by
+  refine ⟨by decide +kernel, by decide +kernel, by decide +kernel, fun g => ?_⟩
+  exact single_component_input_has_the_backend_law bkId exDetK [1, 0] g
+
+
 /-! ### what is still NOT a theorem after round 6 (validated by the correspondence only)
 
   … the EMISSION of the inputs as a random site: `exLoop` is the law for GIVEN emitted inputs (the batches the
@@ -1578,6 +1639,9 @@ example : reorderLen (some 2) 3 = 2 := by
     average over i.i.d. emissions from the trimmed mixture — which would turn the `d` of (e), (e') into the mixture
     law `exShot` of theorem (4) for a noisy source — is not composed.  (e), (e') therefore ask that the inputs of the
     batch share one one-shot law (`single_component_input_has_the_backend_law` is the proved instance);
+    WAVE 10: `stopped_loop_single_component_inputs` / `returned_samples_law_single_component_inputs` are (e), (e')
+    with `H` discharged for batches of one one-component input without detectors, and
+    `closed_form_needs_a_shared_one_shot_law` shows `H` cannot be dropped;
   … (e), (e') without shot limit, or across generator calls (the `K - shots` inputs must be in the current batch);
     without shot limit the law is `exLoop` only — a closed form needs an infinite sum;
   … the randomness of the draws `prepare` moves into the pools before the loop (`sampling_loop_law_pooled` starts on
